@@ -171,3 +171,214 @@ pub fn same_f64(a: f64, b: f64) -> bool {
 pub fn stub_format(_args: std::fmt::Arguments<'_>) -> String {
     String::new()
 }
+
+// =============================================================================================
+// Harness-side type descriptors.  `Ty` is plain constant data (so universes are enumerated with
+// concrete loop indices and CBMC sees concrete shapes); `real()` builds the repo's own `Type`
+// with the repo's own constructors (`Type::concat` for unions, so unions are real MultiTypes).
+// =============================================================================================
+use crate::variable::{FunctionType, StructType};
+use crate::verif_model::HashMap;
+
+#[derive(Clone, Copy, PartialEq, Eq, Debug)]
+pub enum Ty {
+    Bool,
+    Int,
+    Float,
+    Str,
+    Void,
+    Any,
+    Never,
+    Arr(&'static Ty),
+    Mut(&'static Ty),
+    Tup(&'static [Ty]),
+    Fun(&'static [Ty], &'static Ty),
+    Struct(&'static [(&'static str, Ty)]),
+    Union(&'static [Ty]),
+}
+
+pub fn real(t: &Ty) -> Type {
+    match t {
+        Ty::Bool => Type::Bool,
+        Ty::Int => Type::Int,
+        Ty::Float => Type::Float,
+        Ty::Str => Type::String,
+        Ty::Void => Type::Void,
+        Ty::Any => Type::Any,
+        Ty::Never => Type::Never,
+        Ty::Arr(e) => Type::Array(Arc::new(real(e))),
+        Ty::Mut(e) => Type::Mut(Arc::new(real(e))),
+        Ty::Tup(es) => {
+            let mut v = Vec::new();
+            let mut k = 0;
+            while k < es.len() {
+                v.push(real(&es[k]));
+                k += 1;
+            }
+            Type::Tuple(v.into())
+        }
+        Ty::Fun(ps, r) => {
+            let mut v = Vec::new();
+            let mut k = 0;
+            while k < ps.len() {
+                v.push(real(&ps[k]));
+                k += 1;
+            }
+            Type::Function(Arc::new(FunctionType { params: v.into(), return_type: real(r) }))
+        }
+        Ty::Struct(fs) => {
+            let mut m: HashMap<Arc<str>, Type> = HashMap::new();
+            let mut k = 0;
+            while k < fs.len() {
+                m.insert(fs[k].0.into(), real(&fs[k].1));
+                k += 1;
+            }
+            Type::Struct(StructType(Arc::new(m)))
+        }
+        Ty::Union(ms) => {
+            let mut acc = real(&ms[0]);
+            let mut k = 1;
+            while k < ms.len() {
+                acc = acc | real(&ms[k]);
+                k += 1;
+            }
+            acc
+        }
+    }
+}
+
+use crate::variable::{Array, Typed};
+
+fn short_str(k: usize) -> Variable {
+    if k % 2 == 0 { Variable::String("".into()) } else { Variable::String("a\u{e9}".into()) }
+}
+
+/// A representative value inhabiting `t`; scalars are symbolic, `k` (concrete) selects union
+/// members / the empty-vs-non-empty array / the `any` witness.
+pub fn val(t: &Ty, k: usize) -> Variable {
+    match t {
+        Ty::Bool => Variable::Bool(kani::any()),
+        Ty::Int => Variable::Int(kani::any()),
+        Ty::Float => Variable::Float(kani::any()),
+        Ty::Str => short_str(k),
+        Ty::Void => Variable::Void,
+        Ty::Any => match k % 3 {
+            0 => Variable::Int(kani::any()),
+            1 => short_str(k / 3),
+            _ => Variable::Void,
+        },
+        Ty::Never => panic!("no value inhabits !"),
+        Ty::Arr(e) => {
+            let elements: Arc<[Variable]> = if k % 2 == 0 || matches!(**e, Ty::Never) {
+                Arc::from(Vec::new())
+            } else {
+                Arc::from(vec![val(e, k / 2)])
+            };
+            Variable::Array(Arc::new(Array::new_with_type(real(e), elements)))
+        }
+        Ty::Mut(e) => Variable::Mut(new_cell(real(e), val(e, k))),
+        Ty::Tup(es) => {
+            let mut v = Vec::new();
+            let mut i = 0;
+            while i < es.len() {
+                v.push(val(&es[i], k));
+                i += 1;
+            }
+            Variable::Tuple(v.into())
+        }
+        Ty::Fun(..) => Variable::of_type(&real(t)).unwrap(),
+        Ty::Struct(fs) => {
+            let mut m: HashMap<Arc<str>, Variable> = HashMap::new();
+            let mut i = 0;
+            while i < fs.len() {
+                m.insert(fs[i].0.into(), val(&fs[i].1, k));
+                i += 1;
+            }
+            Variable::Struct(Arc::new(m))
+        }
+        Ty::Union(ms) => val(&ms[k % ms.len()], k / ms.len()),
+    }
+}
+
+/// Deep membership "v belongs to t", judged by the *contents* of v (reference semantics written
+/// in the harness; function values are judged by their declared type).
+pub fn in_ty(v: &Variable, t: &Ty) -> bool {
+    match t {
+        Ty::Any => true,
+        Ty::Never => false,
+        Ty::Bool => matches!(v, Variable::Bool(_)),
+        Ty::Int => matches!(v, Variable::Int(_)),
+        Ty::Float => matches!(v, Variable::Float(_)),
+        Ty::Str => matches!(v, Variable::String(_)),
+        Ty::Void => matches!(v, Variable::Void),
+        Ty::Arr(e) => match v {
+            Variable::Array(a) => {
+                let mut i = 0;
+                while i < a.len() {
+                    if !in_ty(&a[i], e) {
+                        return false;
+                    }
+                    i += 1;
+                }
+                true
+            }
+            _ => false,
+        },
+        Ty::Mut(e) => match v {
+            // a cell belongs to `mut T` iff it was declared with a type equivalent to T and holds a T
+            Variable::Mut(m) => {
+                let declared = real(e);
+                m.var_type.matches(&declared) && declared.matches(&m.var_type) && in_ty(&m.variable.read().unwrap(), e)
+            }
+            _ => false,
+        },
+        Ty::Tup(es) => match v {
+            Variable::Tuple(xs) => {
+                if xs.len() != es.len() {
+                    return false;
+                }
+                let mut i = 0;
+                while i < es.len() {
+                    if !in_ty(&xs[i], &es[i]) {
+                        return false;
+                    }
+                    i += 1;
+                }
+                true
+            }
+            _ => false,
+        },
+        Ty::Fun(..) => match v {
+            Variable::Function(f) => f.as_type().matches(&real(t)),
+            _ => false,
+        },
+        Ty::Struct(fs) => match v {
+            Variable::Struct(m) => {
+                let mut i = 0;
+                while i < fs.len() {
+                    match m.get(fs[i].0) {
+                        Some(x) => {
+                            if !in_ty(x, &fs[i].1) {
+                                return false;
+                            }
+                        }
+                        None => return false,
+                    }
+                    i += 1;
+                }
+                true
+            }
+            _ => false,
+        },
+        Ty::Union(ms) => {
+            let mut i = 0;
+            while i < ms.len() {
+                if in_ty(v, &ms[i]) {
+                    return true;
+                }
+                i += 1;
+            }
+            false
+        }
+    }
+}
